@@ -15,6 +15,28 @@ structure OnceState where
   complete : Option Clock := none
 deriving Repr, Inhabited
 
+namespace OnceState
+
+/-- first segment of `call_once_inner` (one `ExecutionState::with`): create the `Running` slot if
+there is none; `some c` = already `Complete(c)` (the caller joins `c` and returns) -/
+def enter (s : OnceState) : OnceState × Option Clock :=
+  -- `if self.get_state(state).is_none() { init_state(Running(Mutex::new_internal(false))) }`
+  let s := if s.mutex.isNone then { s with mutex := some {} } else s
+  (s, s.complete)
+
+/-- the `bool` behind the internal mutex -/
+def flag (s : OnceState) : Nat := (s.mutex.getD {}).value
+
+/-- the winner's last segment: `*flag = true`, then `Complete(clock)` with `c` = the caller's
+clock after `increment_clock()` -/
+def finish (s : OnceState) (c : Clock) : OnceState :=
+  { mutex := some { (s.mutex.getD {}) with value := 1 }, complete := some c }
+
+/-- `Once::is_completed`: `some c` = `Complete(c)` (the caller joins `c`) -/
+def isCompleted (s : OnceState) : Option Clock := s.complete
+
+end OnceState
+
 namespace Once
 variable {U : Type}
 
@@ -25,10 +47,9 @@ def mutexL (L : Lens U OnceState) : Lens U MutexState :=
 the guard `flag` is alive between them. -/
 def callOnce (L : Lens U OnceState) (init : Prog U Unit) (pushG popG : Prog U Unit) : Prog U Bool := do
   let s ← K.getL L
-  -- `if self.get_state(state).is_none() { init_state(Running(Mutex::new_internal(false))) }`
-  let s := if s.mutex.isNone then { s with mutex := some {} } else s
+  let (s, done) := s.enter
   K.setL L s
-  match s.complete with
+  match done with
   | some c => do
     K.updateClock c
     pure false
@@ -45,11 +66,9 @@ def callOnce (L : Lens U OnceState) (init : Prog U Unit) (pushG popG : Prog U Un
         pure false
       else do
         init
-        let m ← K.getL (mutexL L)
-        K.setL (mutexL L) { m with value := 1 }
         let c ← K.incClock
         let s ← K.getL L
-        K.setL L { s with complete := some c }
+        K.setL L (s.finish c)
         popG
         Mutex.unlock (mutexL L)
         pure true
@@ -57,7 +76,7 @@ def callOnce (L : Lens U OnceState) (init : Prog U Unit) (pushG popG : Prog U Un
 /-- `Once::is_completed` — no scheduling point -/
 def isCompleted (L : Lens U OnceState) : Prog U Bool := do
   let s ← K.getL L
-  match s.complete with
+  match s.isCompleted with
   | some c => do K.updateClock c; pure true
   | none => pure false
 
